@@ -91,14 +91,22 @@ def basis_covariance_pt(inp):
         rho0 /= np.trace(rho0)
         V = _haar(d, rng)
 
-        def run(Hs, Os, r0):
-            pt = oqupy.PtTempo(oqupy.Bath((Os + Os.conj().T) / 2, corr), 0.0, 0.6, par).get_process_tensor(progress_type='silent')
-            return oqupy.compute_dynamics(oqupy.System(Hs), initial_state=r0, process_tensor=pt, progress_type='silent').states
+        def run(Hs, Os, r0, file_backed=False):
+            # the in-memory and the file-backed process tensor are built by two different constructors of PtTempo
+            pt = oqupy.PtTempo(oqupy.Bath((Os + Os.conj().T) / 2, corr), 0.0, 0.6, par,
+                               process_tensor_file=True if file_backed else None).get_process_tensor(progress_type='silent')
+            try:
+                return oqupy.compute_dynamics(oqupy.System(Hs), initial_state=r0, process_tensor=pt, progress_type='silent').states
+            finally:
+                if file_backed:
+                    pt.close()
+                    pt.remove()
         ref = run(H, O, rho0)
-        rot = run(V @ H @ V.conj().T, V @ O @ V.conj().T, V @ rho0 @ V.conj().T)
-        err = max(float(np.abs(r - V @ s @ V.conj().T).max()) for r, s in zip(rot, ref))
-        if err > 1e-6:
-            bad.append({'spectrum': spectrum, 'max_deviation_from_covariance': err})
+        for file_backed in (False, True):
+            rot = run(V @ H @ V.conj().T, V @ O @ V.conj().T, V @ rho0 @ V.conj().T, file_backed)
+            err = max(float(np.abs(r - V @ s @ V.conj().T).max()) for r, s in zip(rot, ref))
+            if err > 1e-6:
+                bad.append({'spectrum': spectrum, 'process_tensor': 'file' if file_backed else 'in memory', 'max_deviation_from_covariance': err})
     return {'violates': bool(bad), 'detail': bad}
 
 
